@@ -1,5 +1,6 @@
 mod gen;
 mod hung;
+mod node;
 mod sel;
 
 fn arg<T: std::str::FromStr>(args: &[String], name: &str, default: T) -> T {
@@ -42,6 +43,17 @@ fn main() {
             arg(&args, "--seed", 1u64),
             arg(&args, "--count", 100usize),
             arg(&args, "--max-dim", 10usize),
+            shards,
+            &outdir,
+            opt_arg(&args, "--replay"),
+        ),
+        "node" => node::run(
+            arg(&args, "--seed", 1u64),
+            arg(&args, "--count", 100usize),
+            arg(&args, "--max-c", 6usize),
+            arg(&args, "--max-p", 9usize),
+            arg(&args, "--rooms", 2usize),
+            arg(&args, "--per-inst", 8usize),
             shards,
             &outdir,
             opt_arg(&args, "--replay"),
